@@ -10,7 +10,7 @@ for d in "$@"; do
   PYTHONPATH=$WT /venv/bin/python $d/demo.py > /dev/null 2>&1; c=$?
   git apply $d/patch.diff || { echo "$d: PATCH DOES NOT APPLY"; continue; }
   PYTHONPATH=$WT /venv/bin/python $d/demo.py > /dev/null 2>&1; m=$?
-  t=$(PYTHONPATH=$WT timeout 1500 /venv/bin/python -m pytest -q -p no:cacheprovider tests -q 2>&1 | tail -1)
+  t=$(PYTHONPATH=$WT timeout 1500 /venv/bin/python -m pytest -q -p no:cacheprovider tests 2>&1 | grep -E "^[0-9]+ (passed|failed)|passed" | tail -1)
   git checkout -q -- . ; git clean -fdq examples
   echo "$(basename $d): demo clean=$c patched=$m tests: $t"
 done
